@@ -149,6 +149,13 @@ class Mut:
                     m = r.choice([576 + self.val(16) % 8641, r.randrange(576, 9217), 576, 9216, 1500])
                     ls[i] = re.sub(r'\bmtu=\d+', 'mtu=%d' % m, ls[i])
         if ls == list(lines): return None
+        # an interface's automata must exist before anything is done to them (scenarios that build them say so with mk)
+        if any(l.startswith('mk ') for l in ls):
+            made = set()
+            for l in ls:
+                t = l.split()
+                if t[0] == 'mk': made.add(t[1])
+                elif len(t) > 1 and t[0] not in ('adv', 'cfg', 'junk', 'failalloc', 'failsend', 'ctor') and t[1] not in made: return None
         return ls
 
 def run_cov(files, tag):
